@@ -5,8 +5,8 @@ ID = 'C15'
 RULE = ('SCC streams in pop-on, roll-up and paint-on mode (and mixtures) whose rows carry 0-40 plain '
         'characters with the lengths concentrated on 31/32/33/40; pop-on and paint-on captions use adjacent '
         'rows (several lines in one caption) and non-adjacent rows (several captions sharing a start), so '
-        'that the long line is first / middle / last of a same-start group. Rows may begin with one or two blanks (cells of the row; trailing blanks are not generated: the reader '
-        'counts them only for some groupings, and the statement does not say whether they belong to the line). '
+        'that the long line is first / middle / last of a same-start group. Rows may begin with one or two blanks (cells of the row) and end with one to three blanks (the reader '
+        'removes blanks at the end of every line, so they are not part of it). '
         'A row is addressed once per load '
         '(text overlaid on a row by a second PAC has no defined "line" in the statement). Oracle from the transmitted '
         'rows alone: some row > 32 => CaptionLineLengthError whose message contains every offending row; '
@@ -16,7 +16,8 @@ ANCHORS = ['pycaption.scc:SCCReader.read']
 REQUIRE = {'streams_with_long_row': 50, 'streams_without_long_row': 50, 'long_rows_in_same_start_group': 20,
            'errors_checked': 50, 'returned_lines_checked': 200, 'mode_roll': 20, 'mode_paint': 20,
            'mode_pop': 20, 'two_long_rows_same_start': 5, 'streams_with_empty_row': 30,
-           'rows_of_32_or_more_cells_with_leading_blanks': 20}
+           'rows_of_32_or_more_cells_with_leading_blanks': 20,
+           'rows_over_32_cells_only_through_trailing_blanks': 20}
 
 LENGTHS = [0, 0, 1, 5, 12, 20, 28, 31, 32, 32, 32, 33, 33, 34, 40]
 
@@ -28,7 +29,12 @@ def cases(ctx):
                             ['pop', 'pop'], ['roll', 'paint'], ['pop', 'roll', 'pop'], ['pop', 'paint', 'pop'],
                             ['pop', 'roll']])
         lengths = LENGTHS if rng.random() < 0.7 else [0, 3, 10, 20, 30, 31, 32]
-        yield {'stream': G.gen_stream(rng, modes=modes, lengths=lengths, tagged=True)}
+        yield {'stream': G.gen_stream(rng, modes=modes, lengths=lengths, tagged=True, trailing=True)}
+
+
+def _len(row):
+    """Cells of a row up to its last visible character: blanks at the end of a line are not part of it."""
+    return len(row.rstrip(' '))
 
 
 def _groups(st):
@@ -37,14 +43,14 @@ def _groups(st):
     for seg in st['segments']:
         if seg['mode'] == 'roll':
             for r in seg['rows']:
-                out.append([len(G.items_display(r['items']))])
+                out.append([_len(G.items_display(r['items']))])
         elif seg['mode'] == 'paint':
             for ln in seg['lines']:
-                out.append([len(G.items_display(r['items'])) for r in ln['rows']])
+                out.append([_len(G.items_display(r['items'])) for r in ln['rows']])
         else:
             for cap in seg['captions']:
                 if not cap.get('abandoned'):
-                    out.append([len(G.items_display(r['items'])) for r in cap['rows']])
+                    out.append([_len(G.items_display(r['items'])) for r in cap['rows']])
     return out
 
 
@@ -60,7 +66,9 @@ def check(case, ctx):
     doc = G.scc_doc(lines)
     for seg in st['segments']:
         ctx.count('mode_' + seg['mode'])
-    long_rows = [r for r in rows if len(r) > 32]
+    long_rows = [r.rstrip(' ') for r in rows if _len(r) > 32]
+    if any(r.endswith(' ') and len(r) > 32 >= _len(r) for r in rows):
+        ctx.count('rows_over_32_cells_only_through_trailing_blanks')
     if any(len(r) == 0 for r in rows):
         ctx.count('streams_with_empty_row')
     if any(r.startswith(' ') and len(r) >= 32 for r in rows):
@@ -85,7 +93,7 @@ def check(case, ctx):
                      'message': msg[:600], 'doc': doc}]
         return []
     except CaptionReadNoCaptions as e:
-        if all(len(r) == 0 for r in rows):
+        if all(_len(r) == 0 for r in rows):
             return []
         return [{'what': 'no captions read although text was transmitted', 'doc': doc}]
     except Exception as e:
